@@ -265,6 +265,61 @@ def memo_sites(repo: Repo, cls: Classes):
                     yield ("pool", fi, n, pool)
 
 
+def dict_memo_sites(repo: Repo):
+    """Module-level dicts used as a memo by plain subscripting: `k in MEMO` / `MEMO.get(k)` / `MEMO[k]` to look an answer up and
+    `MEMO[k] = v` to store it, inside one function.  Yields (FuncInfo, store statement, pool name, key expression)."""
+    for fi in repo.all_funcs():
+        mod = fi.module
+        stores = []
+        for n in ast.walk(fi.node):
+            if isinstance(n, ast.Assign) and len(n.targets) == 1 and isinstance(n.targets[0], ast.Subscript) and isinstance(n.targets[0].value, ast.Name):
+                pool = n.targets[0].value.id
+                if pool in mod.consts and _is_dict(mod.consts[pool]) and not astq.assignments(fi.node, pool):
+                    stores.append((n, pool))
+        for st, pool in stores:
+            looked_up = False
+            for n in ast.walk(fi.node):
+                if isinstance(n, ast.Compare) and any(isinstance(o, (ast.In, ast.NotIn)) for o in n.ops) and any(isinstance(c, ast.Name) and c.id == pool for c in n.comparators):
+                    looked_up = True
+                elif isinstance(n, ast.Subscript) and isinstance(n.ctx, ast.Load) and isinstance(n.value, ast.Name) and n.value.id == pool:
+                    looked_up = True
+                elif isinstance(n, ast.Call) and isinstance(n.func, ast.Attribute) and isinstance(n.func.value, ast.Name) and n.func.value.id == pool and n.func.attr in ("get", "setdefault", "pop"):
+                    looked_up = True
+            if looked_up:
+                key = st.targets[0].slice
+                for _ in range(3):
+                    if isinstance(key, ast.Name):
+                        d = astq.single_def(fi.node, key.id)
+                        if d is None:
+                            break
+                        key = d
+                yield fi, st, pool, key
+
+
+def key_covers(cls: "Classes", owner: Tuple[str, ast.ClassDef], key: ast.AST, param: str) -> Optional[Set[str]]:
+    """Fields of the object `param` that the key expression determines: `hash(p)` -> what __hash__ reads, `p.attr` -> what that
+    member reads, `p` itself -> what equality covers, `str(p)`/`repr(p)` likewise through the dunder.  None: p is not in the key."""
+    om, oc = owner
+    par = astq.parents(key)
+    out: Set[str] = set()
+    seen = False
+    for n in ast.walk(key):
+        if not (isinstance(n, ast.Name) and n.id == param):
+            continue
+        seen = True
+        p = par.get(id(n))
+        if isinstance(p, ast.Attribute) and p.value is n:
+            out |= cls.reads_of_member(om, oc, p.attr)
+        elif isinstance(p, ast.Call) and isinstance(p.func, ast.Name) and p.func.id in _DUNDER and n in p.args:
+            out |= cls.reads_of_member(om, oc, _DUNDER[p.func.id])
+        elif isinstance(p, ast.Call) and isinstance(p.func, ast.Name) and p.func.id == "id":
+            out |= set(cls.fields(om, oc))  # the object itself (address): nothing of another object can collide while it lives
+        else:
+            how, covered = cls.equality(om, oc)
+            out |= set(cls.fields(om, oc)) if how == "identity" else covered
+    return out if seen else None
+
+
 def _is_dict(e: ast.AST) -> bool:
     return isinstance(e, ast.Dict) or (isinstance(e, ast.Call) and astq.callee_name(e) in ("dict", "defaultdict", "OrderedDict", "WeakValueDictionary"))
 
@@ -343,6 +398,30 @@ def findings(repo: Repo):
                         )
                     )
                     break
+    for fi, st, pool, key in dict_memo_sites(repo):
+        n_sites += 1
+        for a in fi.node.args.args:
+            owner = (fi.module.name, fi.cls) if (a.arg == "self" and fi.cls is not None) else _ann_class(cls, fi.module.name, a.annotation)
+            if owner is None:
+                continue
+            fields = set(cls.fields(*owner))
+            reads = reads_of_param(repo, cls, fi, a.arg, owner)
+            reads = fields if ALL in reads else (reads & fields)
+            covered = key_covers(cls, owner, key, a.arg)
+            missing = reads - (covered or set())
+            if missing:
+                out.append(
+                    (
+                        fi,
+                        st,
+                        f"`{norm(st)[:80]}` memoises {fi.qualname} in the module-level dict `{pool}` under the key `{norm(key)[:70]}`, which "
+                        + (f"determines only {sorted(covered)} of `{a.arg}`" if covered is not None else f"does not contain `{a.arg}` at all")
+                        + f" while the memoised computation reads {sorted(missing)} of that {owner[1].name}: another object with the same identifiers but other {sorted(missing)[0]} "
+                        f"(another structure, model or conformer met later in the same process) gets the first one's stored answer",
+                        f"dictmemo:{fi.qualname}:{pool}:{a.arg}",
+                    )
+                )
+                break
     return out, n_sites
 
 
@@ -477,15 +556,27 @@ def _check_identity(chk, pid: str) -> None:
     rule = "identity-equality"
     chk.robust.add(rule)
     try:
+        import json
+        import os
+
         found, n = identity_findings(repo)
-        rel = relevant(repo, pid) or set()
-        used = _classes_used(repo, Classes(repo), rel)
+        spec_path = os.path.join(os.path.dirname(os.path.dirname(os.path.abspath(__file__))), "spec", "identity.json")
+        users = json.load(open(spec_path)).get("properties", {})
     except Exception as e:  # never a verdict
         chk.error(rule, "-", f"identity analysis failed: {type(e).__name__}: {e}")
         return
     k = 0
     for m, c, site, msg, key in found:
-        if (m, c.name) in used:
+        # a class the table does not know (new record class): attributed through the classes the property's reachable code names
+        listed = users.get(f"{m}.{c.name}")
+        if listed is None:
+            try:
+                hit = (m, c.name) in _classes_used(repo, Classes(repo), relevant(repo, pid) or set())
+            except Exception:
+                hit = False
+        else:
+            hit = pid in listed
+        if hit:
             k += 1
             mod = repo.modules[m]
             chk.violation(rule, f"{mod.relpath}:{getattr(site, 'lineno', c.lineno)} {c.name}", msg, f"{m}:{c.name}:{key}")
